@@ -537,3 +537,130 @@ def check_c07(result, ex, clause="error"):
                             f"{[x[2:4] for x in w]} instead of a RemoteError naming the callback failure")
         if ["isclosed", True] not in omain:
             raise Violation(f"{clause}.own-channel-open", f"{where}: the failing side's own channel is not closed")
+
+
+# =============================================================================================
+# C10: callback receivers see every item once, in order, then one endmarker
+# =============================================================================================
+
+
+def c10_params():
+    return st.fixed_dictionaries(dict(
+        sender=st.sampled_from(["a", "b", "b"]),
+        chan=st.sampled_from(["main", "main", "sub_a", "sub_b"]),
+        items=st.lists(payloads(), max_size=6),
+        k_before=st.integers(0, 6),
+        late=st.booleans(),
+        end=st.sampled_from(["close", "close", "raise"]),
+        endmarker=st.booleans(),
+        wrap=st.sampled_from(["bare", "list", "dict"]),
+    )).map(_c10_normalise)
+
+
+def _c10_normalise(p):
+    p = dict(p)
+    p["k_before"] = min(p["k_before"], len(p["items"]))
+    if p["chan"] == "main":
+        if p["sender"] == "b":
+            p["end"] = "end" if p["end"] == "close" else "raise"  # B ends its exec channel by returning or raising
+        else:
+            p["end"] = "close"
+    else:
+        p["end"] = "close"
+    return p
+
+
+def c10_conversation(conv, p):
+    ch = "main" if p["chan"] == "main" else "sub"
+    snd, cons = p["sender"], ("b" if p["sender"] == "a" else "a")
+    items = [tag_item(conv, f"{snd}2{cons}", 0, k, pl) for k, pl in enumerate(p["items"])]
+    cbkey = f"{cons}:{conv}:cb"
+    s_ops = [["send", ch, it] for it in items]
+    if p["end"] == "close":
+        s_ops += [["close", ch]]
+    elif p["end"] == "raise":
+        s_ops += [["raise", f"boom-{conv}"]]
+    c_ops = [["recv", ch, p["k_before"]]] if p["k_before"] else []
+    if p["late"]:
+        c_ops += [["waitclose", ch]]
+    c_ops += [["setcallback", ch, cbkey, p["endmarker"], None, "cbdone"]]
+    if p["endmarker"]:
+        c_ops += [["wait", "cbdone"]]
+    c_ops += [["waitclose", ch], ["note", "after"], ["recv", ch, 1, 0.5], ["setcallback", ch, cbkey + "2", False]]
+    a_pre, b_pre = [], []
+    if p["chan"] == "sub_a":
+        a_pre = [["newchannel", "sub"], ["send_chan", "main", "sub", p["wrap"]]]
+        b_pre = [["recv_chan", "main", "sub"]]
+    elif p["chan"] == "sub_b":
+        b_pre = [["newchannel", "sub"], ["send_chan", "main", "sub", p["wrap"]]]
+        a_pre = [["recv_chan", "main", "sub"]]
+    a_body, b_body = (s_ops, c_ops) if snd == "a" else (c_ops, s_ops)
+    b_ops = b_pre + b_body
+    a_ops = [["remote_exec", "main", b_ops]] + a_pre + a_body
+    if ch == "sub":
+        a_ops += [["waitclose", "main"]]
+    expect = dict(conv=conv, consumer=cons, ch=ch, sent=[fp_of(i) for i in items], k=p["k_before"], cbkey=cbkey,
+                  endmarker=p["endmarker"], end=p["end"], late=p["late"])
+    return a_ops, expect
+
+
+def c10_multi(conv, p):
+    """p: dict(members=[[payload,...], ...] (2-4 lists), endmarker=bool) -> (a_ops, expect)"""
+    a_ops, sent = [], {}
+    names = []
+    for m, pls in enumerate(p["members"]):
+        name = f"m{m}"
+        names.append(name)
+        items = [tag_item(conv, f"m{m}", 0, k, pl) for k, pl in enumerate(pls)]
+        sent[name] = [fp_of(i) for i in items]
+        a_ops.append(["remote_exec", name, [["send", "main", it] for it in items], f"{conv}.{m}"])
+    total = sum(len(v) for v in sent.values()) + (len(names) if p["endmarker"] else 0)
+    a_ops.append(["multi_queue", names, p["endmarker"], total])
+    a_ops += [["waitclose", n] for n in names]
+    expect = dict(conv=conv, multi=True, sent=sent, endmarker=p["endmarker"], names=names)
+    return a_ops, expect, [f"{conv}.{m}" for m in range(len(names))]
+
+
+def check_c10(result, ex, clause="callback"):
+    conv = ex["conv"]
+    if ex.get("multi"):
+        logs = result["a"] or {}
+        main = logs.get(f"a:{conv}:main", [])
+        if ["multi_queue", "drained"] not in main:
+            raise Violation(f"{clause}.multi-queue", f"conv {conv}: receive queue: {[e for e in main if e[0] == 'multi_queue']}")
+        for name in ex["names"]:
+            got = logs.get(f"a:{conv}:mq:{name}", [])
+            want = [["item", fp] for fp in ex["sent"][name]] + ([["endmarker"]] if ex["endmarker"] else [])
+            if got != want:
+                raise Violation(f"{clause}.multi-member", f"conv {conv} member {name}: queue delivered "
+                                f"{[e[0] if e[0] != 'item' else _seqs([e[1]])[0] for e in got]}, expected {len(ex['sent'][name])} "
+                                f"items in order{' then the endmarker' if ex['endmarker'] else ''}")
+        return
+    cons = ex["consumer"]
+    logs = result[cons] or {}
+    where = f"conv {conv} (callback on {cons}, {ex['ch']}, set after {ex['k']} receives{', after the close' if ex['late'] else ''})"
+    main = logs.get(f"{cons}:{conv}:main", [])
+    first = [e for e in main if e[0] == "item"][: ex["k"]]
+    if [e[1] for e in first] != ex["sent"][: ex["k"]]:
+        raise Violation(f"{clause}.before", f"{where}: receive() before setcallback gave seqs {_seqs([e[1] for e in first])}")
+    sc = [e for e in main if e[0] == "setcallback"]
+    if not sc or sc[0][1] != "ok":
+        raise Violation(f"{clause}.setcallback-failed", f"{where}: {sc[:1]}")
+    cb = logs.get(ex["cbkey"], [])
+    want = [["item", fp] for fp in ex["sent"][ex["k"]:]] + ([["endmarker"]] if ex["endmarker"] else [])
+    if cb != want:
+        got_items = [e[1] for e in cb if e[0] == "item"]
+        n_end = sum(1 for e in cb if e[0] == "endmarker")
+        what = "lost" if len(got_items) < len(ex["sent"]) - ex["k"] else "order-or-duplicate"
+        if got_items == [fp for fp in ex["sent"][ex["k"]:]]:
+            what = "endmarker"
+        raise Violation(f"{clause}.{what}", f"{where}: callback saw items {_seqs(got_items)} and {n_end} endmarker(s) "
+                        f"(last entry {cb[-1][0] if cb else None}); expected seqs {ex['k']}..{len(ex['sent']) - 1} then "
+                        f"{'exactly one' if ex['endmarker'] else 'no'} endmarker")
+    if ["note", "after"] not in main:
+        raise Violation(f"{clause}.script-incomplete", f"{where}: {main[-4:]}")
+    tail = main[main.index(["note", "after"]) + 1:]
+    if not tail or tail[0][0] != "oserror":
+        raise Violation(f"{clause}.receive-not-refused", f"{where}: receive() after setcallback gave {tail[:1]}")
+    if len(tail) < 2 or tail[1][:2] != ["setcallback", "oserror"]:
+        raise Violation(f"{clause}.second-setcallback", f"{where}: a second setcallback gave {tail[1:2]}")
